@@ -5,7 +5,16 @@ graph) of the (rank-truncated pseudo-)inverse of the sample covariance of the ed
 scattered to the block positions.  The covariance is computed by hand (centred cross product over
 n-1 or n), the inverse through a symmetric eigendecomposition; nothing from menpo.model is used on
 the reference side.
+
+The way the same model is *asked for* is part of the case (and never of the reference): how the graph is
+handed over (edge list / dense, sparse or weighted adjacency matrix / graph with geometry), how the samples
+are handed over (matrix in C, Fortran or strided layout, float32 matrix, list, list or iterator longer than
+``n_samples``), ``verbose=True``, ``n_components`` at or above the block size, how a query batch is handed
+over (array, Fortran array, list of lists, list of arrays), and whether the model saw its samples at once
+or through ``incremental=True`` + ``increment``.
 """
+import contextlib
+import io
 import json
 import zlib
 
@@ -16,31 +25,50 @@ from hypothesis import strategies as st
 from vlib.runner import Clause
 from vlib import gen
 from vlib.tol import close, describe, maxdiff
-from vlib.digest import digest, digest_diff, parameter_mutation
+from vlib.digest import digest, parameter_mutation
 
 from menpo.model import GMRFModel, GMRFVectorModel
-from menpo.shape import PointCloud, UndirectedGraph, DirectedGraph, Tree
+from menpo.shape import (
+    PointCloud,
+    UndirectedGraph,
+    DirectedGraph,
+    Tree,
+    PointUndirectedGraph,
+    PointDirectedGraph,
+    PointTree,
+)
 
 PROPERTY = "C12"
 RULE = (
-    "A case = graph (kind, vertex count, explicit edge list, how it is handed to the graph constructor) x "
-    "features per vertex 1..3 x mode x bias x storage x dtype x optional rank x model class x query batch; data "
+    "A case = graph (kind, vertex count, explicit edge list, how it is handed to the graph constructor: edge list, "
+    "dense / csr adjacency, optionally with weights != 1, optionally a Point*Graph with geometry) x "
+    "features per vertex 1..3 x mode x bias x storage x dtype x optional rank (below, at or above the block size) x "
+    "model class x sample form (C / Fortran / strided / float32 matrix, list, list or iterator with surplus items "
+    "and n_samples) x verbose x query batch (array, Fortran array, list of lists, list of arrays); data "
     "X = Z L + offset with Z standard normal from RandomState(seed), L a mixing matrix with singular values in "
     "[0.5, 2] (gen.linear_case up to 8 features, seeded QR factors above), n = 6k + extra >= 3 x block samples. "
     "Clause 'small_graphs' enumerates every labelled undirected graph on 2..4 vertices x mode x bias x storage x "
     "features x dtype; clause 'random_graphs' draws undirected / directed (no antiparallel pair, no loop) / tree "
-    "graphs on 2..8 vertices.  Non-trivial: the graph is edgeless (separate class), or has an edge and a vertex "
-    "of degree >= 2 (a diagonal block receives more than one contribution).  Distinct = distinct case digest."
+    "graphs on 2..8 vertices; clause 'incremental' builds the model with incremental=True on the first n samples "
+    "and feeds 1..2 further batches through increment().  Non-trivial: the graph is edgeless (separate class), or "
+    "has an edge and a vertex of degree >= 2 (a diagonal block receives more than one contribution).  "
+    "Distinct = distinct case digest."
 )
 ASSUMPTIONS = [
-    "data matrix is float64; `dtype` is the storage type of the precision only; tolerance 1e-7 (float64) / 2e-3 "
+    "data matrix is float64 (except the 'f32' sample layout, compared at float32 tolerance scaled by the block "
+    "condition); `dtype` is the storage type of the precision only; tolerance 1e-7 (float64) / 2e-3 "
     "(float32) relative to max|R| for matrices and to d*max|R|*|v|^2 for quadratic forms",
     "block covariances have bounded condition by construction (population condition <= 16); a case whose sample "
     "block condition exceeds 1e6, or whose truncation rank falls on an eigenvalue gap < 1e-6 (relative), is "
     "counted as an event and not compared (none expected)",
     "n_components=r means: keep the r largest singular triplets of the block covariance (truncated pseudo-inverse); "
-    "only ranks below the block size are generated",
-    "directed graphs carry no antiparallel pair and no self loop; trees are rooted with parent->child edges",
+    "r at or above the block size keeps everything (the full inverse)",
+    "directed graphs carry no antiparallel pair and no self loop; trees are rooted with parent->child edges; "
+    "adjacency weights are positive and only mark an edge (the GMRF ignores their value)",
+    "n_samples=n with a longer list (GMRFVectorModel) or a longer iterator (GMRFModel) means: the first n items; "
+    "a GMRFVectorModel is never given an iterator, a data matrix never comes with n_samples",
+    "an incrementally updated model is the model of all samples seen so far; its per-edge covariances are kept in "
+    "the storage dtype, so a float32 incremental model is compared at 2e-3 * max(1, condition/100)",
     "reference linear algebra: numpy eigh / eigvalsh in float64",
 ]
 
@@ -82,6 +110,19 @@ def build_data(case):
     return x, qs
 
 
+def build_more(case, x, count, foreign):
+    """`count` further rows from an independent stream.  foreign=False: same population as x with a slightly
+    shifted mean (batches for increment()); foreign=True: conspicuously different rows (the surplus items behind
+    n_samples: using any of them moves every covariance by far more than the tolerance)."""
+    d = x.shape[1]
+    rs = np.random.RandomState((case["seed"] * 31 + 977) & 0x7FFFFFFF)
+    mu = x.sum(axis=0) / float(x.shape[0])
+    rows = rs.randn(count, d).dot(build_mix(case))
+    if foreign:
+        return np.ascontiguousarray(mu + 5.0 + 3.0 * rows)
+    return np.ascontiguousarray(mu + 0.5 * rs.randn(d) + rows)
+
+
 def _tree(make):
     """The generated trees are valid by construction (parent -> child edges, every vertex reachable from the
     root).  Before /repo commit 1ac7a59 Tree.__init__ compared the *storage order* of scipy's breadth-first tree
@@ -98,29 +139,48 @@ def _tree(make):
     return g
 
 
+_WEIGHTS = [0.25, 0.5, 2.0, 3.0, 7.5]
+
+
 def build_graph(case):
     v = case["V"]
     edges = [list(e) for e in case["edges"]]
     kind, ctor = case["gkind"], case["ctor"]
-    if ctor == "adjacency":
-        a = np.zeros((v, v), dtype=int)
+    pts = None
+    if case.get("pointgraph"):
+        pts = np.random.RandomState(case["seed"] ^ 0x1F2E3D).rand(v, 2) * 10.0
+    if ctor in ("adjacency", "adjacency_csr"):
+        weighted = bool(case.get("weighted"))
+        a = np.zeros((v, v), dtype=float if weighted else int)
+        wrs = np.random.RandomState(case["seed"] ^ 0x0777)
         for i, j in edges:
-            a[i, j] = 1
+            w = _WEIGHTS[wrs.randint(len(_WEIGHTS))] if weighted else 1
+            a[i, j] = w
             if kind == "undirected":
-                a[j, i] = 1
+                a[j, i] = w
+        if ctor == "adjacency_csr":
+            a = sp.csr_matrix(a)
         if kind == "undirected":
-            return UndirectedGraph(a)
+            return UndirectedGraph(a) if pts is None else PointUndirectedGraph(pts, a)
         if kind == "directed":
-            return DirectedGraph(a)
-        return _tree(lambda **kw: Tree(a, case["root"], **kw))
+            return DirectedGraph(a) if pts is None else PointDirectedGraph(pts, a)
+        if pts is None:
+            return _tree(lambda **kw: Tree(a, case["root"], **kw))
+        return _tree(lambda **kw: PointTree(pts, a, case["root"], **kw))
     if ctor == "edges_both":
         edges = edges + [[j, i] for i, j in edges]
     e = np.array(edges, dtype=int).reshape(-1, 2)
     if kind == "undirected":
-        return UndirectedGraph.init_from_edges(e, v)
+        if pts is None:
+            return UndirectedGraph.init_from_edges(e, v)
+        return PointUndirectedGraph.init_from_edges(pts, e)
     if kind == "directed":
-        return DirectedGraph.init_from_edges(e, v)
-    return _tree(lambda **kw: Tree.init_from_edges(e, v, case["root"], **kw))
+        if pts is None:
+            return DirectedGraph.init_from_edges(e, v)
+        return PointDirectedGraph.init_from_edges(pts, e)
+    if pts is None:
+        return _tree(lambda **kw: Tree.init_from_edges(e, v, case["root"], **kw))
+    return _tree(lambda **kw: PointTree.init_from_edges(pts, e, case["root"], **kw))
 
 
 # ================================================================================================
@@ -182,35 +242,85 @@ def ref_precision(x, v, k, edges, mode, bias, rank):
 
 
 # ================================================================================================
-# the check (shared by both clauses)
+# handing the case to menpo
 
 
-def _samples_for(case, x):
-    v, k = case["V"], case["k"]
-    if case["model"] == "pointcloud":
-        return [PointCloud(row.reshape(v, k)) for row in x]
-    if case["as_list"]:
-        return [row.copy() for row in x]
+def sample_layout(case):
+    """Effective layout of the data matrix: only a GMRFVectorModel fed an ndarray has one."""
+    if case["model"] == "vector" and not case["as_list"]:
+        return case.get("layout", "C")
+    return "C"
+
+
+def _lay_out(x, layout):
+    if layout == "F":
+        return np.asfortranarray(x)
+    if layout == "strided":
+        big = np.full((2 * x.shape[0], x.shape[1] + 1), 1e3)
+        big[::2, :-1] = x
+        return big[::2, :-1]
+    if layout == "f32":
+        return x.astype(np.float32)
     return x
 
 
-def _make_model(case, samples, graph, sparse):
-    kw = dict(
+def prepare_samples(case, x, surplus_rows=None, n_samples=None):
+    """-> (holder, make): `holder` is what the caller owns (digested before / after), `make()` returns the
+    (samples, keyword dict) pair for one constructor / increment call (iterators are single-use)."""
+    v, k = case["V"], case["k"]
+    rows = x if surplus_rows is None else np.vstack([x, surplus_rows])
+    if case["model"] == "pointcloud":
+        holder = [PointCloud(row.reshape(v, k)) for row in rows]
+        if n_samples is None:
+            return holder, lambda: (holder, {})
+        # documented form: an iterator together with n_samples
+        return holder, lambda: (iter(holder), {"n_samples": n_samples})
+    if case["as_list"] or n_samples is not None:
+        holder = [row.copy() for row in rows]
+        kw = {} if n_samples is None else {"n_samples": n_samples}
+        return holder, lambda: (holder, dict(kw))
+    holder = _lay_out(rows, sample_layout(case))
+    return holder, lambda: (holder, {})
+
+
+def _model_kwargs(case, sparse):
+    return dict(
         mode=case["mode"],
         n_components=case["ncomp"],
         dtype=np.float32 if case["dtype"] == "float32" else np.float64,
         sparse=sparse,
         bias=case["bias"],
     )
+
+
+@contextlib.contextmanager
+def _maybe_quiet(verbose):
+    """verbose=True prints a progress report: keep it off the runner's stdout."""
+    if verbose:
+        with contextlib.redirect_stdout(io.StringIO()):
+            yield
+    else:
+        yield
+
+
+def _make_model(case, make, graph, sparse, **extra):
+    kw = _model_kwargs(case, sparse)
+    samples, skw = make()
+    kw.update(skw)
+    kw.update(extra)
+    verbose = bool(case.get("verbose"))
+    if verbose:
+        kw["verbose"] = True
     cls = GMRFModel if case["model"] == "pointcloud" else GMRFVectorModel
-    return cls(samples, graph, **kw)
+    with _maybe_quiet(verbose):
+        return cls(samples, graph, **kw)
 
 
 def _dense(p):
     return np.asarray(p.toarray() if sp.issparse(p) else p)
 
 
-def _query(case, rows):
+def _query(case, rows, form="array"):
     """rows: (m, d) array -> what the model class takes for a batch; a 1-D row -> a single query."""
     v, k = case["V"], case["k"]
     rows = np.asarray(rows, dtype=float)
@@ -218,6 +328,12 @@ def _query(case, rows):
         if rows.ndim == 1:
             return PointCloud(rows.reshape(v, k))
         return [PointCloud(r.reshape(v, k)) for r in rows]
+    if form == "lists":
+        return rows.tolist()
+    if form == "list_of_arrays" and rows.ndim == 2:
+        return [r.copy() for r in rows]
+    if form == "array_F" and rows.ndim == 2:
+        return np.asfortranarray(rows)
     return rows.copy()
 
 
@@ -227,28 +343,142 @@ def _as_vec(mean_obj):
     return np.asarray(mean_obj, dtype=float)
 
 
-def check_config(case, ctx):
-    v, k, mode, bias = case["V"], case["k"], case["mode"], case["bias"]
+def _rank_class(case, block):
+    if case["ncomp"] is None:
+        return "full"
+    return "truncated" if case["ncomp"] < block else "ncomp>=block"
+
+
+def _describe_case(case):
+    return "edges=%r k=%d bias=%d ncomp=%r dtype=%s" % (
+        [tuple(e) for e in case["edges"]],
+        case["k"],
+        case["bias"],
+        case["ncomp"],
+        case["dtype"],
+    )
+
+
+def check_precision_matrix(ctx, case, p, sparse, ref, tol, rmax, prefix):
+    """Storage kind, shape, == reference, symmetric, PSD, couples only joined vertices.
+    Returns the dense array (shape (0, 0) when it could not be expanded or has the wrong shape)."""
+    v, k = case["V"], case["k"]
     d = v * k
+    edges = [tuple(e) for e in case["edges"]]
+    where = "edgeless" if not edges else case["mode"]
+    tag = "sparse" if sparse else "dense"
+    ctx.expect(
+        sp.issparse(p) == sparse and (sparse or isinstance(p, np.ndarray)),
+        prefix + ".storage_kind." + tag,
+        lambda: type(p).__name__,
+    )
+    try:
+        pd = _dense(p)
+    except ValueError as e:
+        # scipy refuses to expand a block-sparse matrix whose index arrays are inconsistent
+        ctx.fail(prefix + ".sparse_structure_invalid." + where, "edges=%r: %s" % (edges, e))
+        return np.zeros((0, 0))
+    if not ctx.expect(pd.shape == (d, d), prefix + ".shape." + tag, lambda: repr(pd.shape)):
+        return np.zeros((0, 0))
+    pd64 = pd.astype(float)
+    # 1. equals the reference
+    ctx.expect(
+        close(pd64, ref, rtol=tol, scale=rmax),
+        "%s.vs_reference.%s.%s" % (prefix, tag, where),
+        lambda: "%s\n%s" % (_describe_case(case), describe(pd64, ref)),
+    )
+    # 2. symmetric, positive semi-definite
+    pmax = max(float(np.abs(pd64).max()), 1e-300)
+    ctx.expect(
+        close(pd64, pd64.T, rtol=tol, scale=pmax),
+        "%s.symmetric.%s.%s" % (prefix, tag, where),
+        lambda: "max|P-P^T|=%.3e, max|P|=%.3e" % (maxdiff(pd64, pd64.T), pmax),
+    )
+    if np.all(np.isfinite(pd64)):
+        ev = np.linalg.eigvalsh((pd64 + pd64.T) / 2.0)
+        ctx.expect(
+            ev[0] >= -tol * max(ev[-1], pmax),
+            "%s.psd.%s.%s" % (prefix, tag, where),
+            lambda: "lambda_min=%.6e lambda_max=%.6e" % (ev[0], ev[-1]),
+        )
+    else:
+        ctx.fail(prefix + ".nonfinite." + tag, "")
+    # 3. couples only joined vertices: exact zeros elsewhere
+    joined = set()
+    for a, b in edges:
+        joined.add((a, b))
+        joined.add((b, a))
+    bad = []
+    for a in range(v):
+        for b in range(v):
+            if a != b and (a, b) not in joined:
+                blk = pd[a * k : (a + 1) * k, b * k : (b + 1) * k]
+                if np.any(blk != 0):
+                    bad.append((a, b))
+    ctx.expect(
+        not bad,
+        "%s.couples_unjoined.%s.%s" % (prefix, tag, where),
+        lambda: "edges=%r; non-zero blocks at %r" % (edges, bad[:6]),
+    )
+    return pd
+
+
+def classify(case, ctx):
+    v, k, mode = case["V"], case["k"], case["mode"]
     edges = [tuple(e) for e in case["edges"]]
     edgeless = len(edges) == 0
     deg = [0] * v
     for a, b in edges:
         deg[a] += 1
         deg[b] += 1
-    primary_sparse = bool(case["sparse"])
     block = k if (edgeless or mode == "subtraction") else 2 * k
-
     ctx.event("graph=%s V=%d" % (case["gkind"], v))
     ctx.event("class=" + ("edgeless" if edgeless else ("deg>=2" if max(deg) >= 2 else "matching")))
     ctx.event("k=%d %s" % (k, "edgeless" if edgeless else mode))
     ctx.event("isolated=%s" % (not edgeless and min(deg) == 0))
-    ctx.event("storage=%s dtype=%s bias=%d" % ("sparse" if primary_sparse else "dense", case["dtype"], bias))
-    ctx.event("rank=%s" % ("full" if case["ncomp"] is None else "truncated"))
+    ctx.event(
+        "storage=%s dtype=%s bias=%d" % ("sparse" if case["sparse"] else "dense", case["dtype"], case["bias"])
+    )
+    ctx.event("rank=%s" % _rank_class(case, block))
     ctx.event("model=%s" % case["model"])
+    ctx.event(
+        "graph form=%s%s%s"
+        % (
+            case["ctor"],
+            "+weights" if case.get("weighted") and case["ctor"].startswith("adjacency") and not edgeless else "",
+            "+points" if case.get("pointgraph") else "",
+        )
+    )
+    ctx.event("verbose=%s" % bool(case.get("verbose")))
     ctx.nontrivial(edgeless or max(deg) >= 2)
+    return edges, edgeless
+
+
+# ================================================================================================
+# the check (shared by clauses 1 and 2)
+
+
+def check_config(case, ctx):
+    v, k, mode, bias = case["V"], case["k"], case["mode"], case["bias"]
+    d = v * k
+    edges, edgeless = classify(case, ctx)
+    primary_sparse = bool(case["sparse"])
 
     x, qs = build_data(case)
+    n = x.shape[0]
+    is_matrix = case["model"] == "vector" and not case["as_list"]
+    layout = sample_layout(case)
+    surplus = int(case.get("surplus", 0))
+    nsamp = n if (case.get("nsamp") or surplus) and not is_matrix else None
+    if nsamp is None:
+        surplus = 0
+    ctx.event("samples=%s" % ("matrix:" + layout if is_matrix else "list"))
+    ctx.event("n_samples=%s" % ("default" if nsamp is None else ("given,surplus>0" if surplus else "given,exact")))
+    x_given = x
+    if layout == "f32":
+        # the model is trained on the rounded numbers: so is the reference
+        x_given = x.astype(np.float32)
+        x = x_given.astype(np.float64)
     ref, cond, gap = ref_precision(x, v, k, edges, mode, bias, case["ncomp"])
     if cond > 1e6:
         ctx.event("skipped:block_condition>1e6")
@@ -256,81 +486,30 @@ def check_config(case, ctx):
     if gap < 1e-6:
         ctx.event("skipped:truncation_on_eigenvalue_tie")
         return
-    mu = x.sum(axis=0) / float(x.shape[0])
+    mu = x.sum(axis=0) / float(n)
     rmax = float(np.abs(ref).max())
     tol = 2e-3 if case["dtype"] == "float32" else 1e-7
+    mean_rtol, mean_atol, at_mean_rtol = 1e-12, 1e-13, 1e-12
+    if layout == "f32":
+        # float32 differences / means inside menpo: float32 accuracy amplified by the block condition
+        tol = max(tol, 2e-5 * max(cond, 50.0))
+        mean_rtol, mean_atol, at_mean_rtol = 1e-4, 1e-5, 1e-7
     where = "edgeless" if edgeless else mode
 
     graph = build_graph(case)
     if getattr(graph, "_c12_refused", False):
         ctx.event("tree: valid tree refused by Tree.__init__ (built with skip_checks)")
-    samples = _samples_for(case, x)
+    surplus_rows = build_more(case, x, surplus, foreign=True) if surplus else None
+    samples, make = prepare_samples(case, x_given, surplus_rows, nsamp)
     dig_samples = digest(samples)
     dig_graph = digest(graph)
 
     models = {}
     for s in (primary_sparse, not primary_sparse):
-        models[s] = _make_model(case, samples, graph, s)
+        models[s] = _make_model(case, make, graph, s)
     mats = {}
     for s, mdl in models.items():
-        tag = "sparse" if s else "dense"
-        p = mdl.precision
-        ctx.expect(
-            sp.issparse(p) == s and (s or isinstance(p, np.ndarray)),
-            "precision.storage_kind." + tag,
-            lambda: type(p).__name__,
-        )
-        try:
-            pd = _dense(p)
-        except ValueError as e:
-            # scipy refuses to expand a block-sparse matrix whose index arrays are inconsistent
-            ctx.fail("precision.sparse_structure_invalid." + where, "edges=%r: %s" % (edges, e))
-            mats[s] = np.zeros((0, 0))
-            continue
-        mats[s] = pd
-        if not ctx.expect(pd.shape == (d, d), "precision.shape." + tag, lambda: repr(pd.shape)):
-            continue
-        pd64 = pd.astype(float)
-        # 1. equals the reference
-        ctx.expect(
-            close(pd64, ref, rtol=tol, scale=rmax),
-            "precision.vs_reference.%s.%s" % (tag, where),
-            lambda: "edges=%r k=%d bias=%d ncomp=%r dtype=%s\n%s"
-            % (edges, k, bias, case["ncomp"], case["dtype"], describe(pd64, ref)),
-        )
-        # 2. symmetric, positive semi-definite
-        pmax = max(float(np.abs(pd64).max()), 1e-300)
-        ctx.expect(
-            close(pd64, pd64.T, rtol=tol, scale=pmax),
-            "precision.symmetric.%s.%s" % (tag, where),
-            lambda: "max|P-P^T|=%.3e, max|P|=%.3e" % (maxdiff(pd64, pd64.T), pmax),
-        )
-        if np.all(np.isfinite(pd64)):
-            ev = np.linalg.eigvalsh((pd64 + pd64.T) / 2.0)
-            ctx.expect(
-                ev[0] >= -tol * max(ev[-1], pmax),
-                "precision.psd.%s.%s" % (tag, where),
-                lambda: "lambda_min=%.6e lambda_max=%.6e" % (ev[0], ev[-1]),
-            )
-        else:
-            ctx.fail("precision.nonfinite." + tag, "")
-        # 3. couples only joined vertices: exact zeros elsewhere
-        joined = set()
-        for a, b in edges:
-            joined.add((a, b))
-            joined.add((b, a))
-        bad = []
-        for a in range(v):
-            for b in range(v):
-                if a != b and (a, b) not in joined:
-                    blk = pd[a * k : (a + 1) * k, b * k : (b + 1) * k]
-                    if np.any(blk != 0):
-                        bad.append((a, b))
-        ctx.expect(
-            not bad,
-            "precision.couples_unjoined.%s.%s" % (tag, where),
-            lambda: "edges=%r; non-zero blocks at %r" % (edges, bad[:6]),
-        )
+        mats[s] = check_precision_matrix(ctx, case, mdl.precision, s, ref, tol, rmax, "precision")
     # sparse == dense
     if mats[True].shape == mats[False].shape == (d, d):
         ctx.expect(
@@ -341,7 +520,9 @@ def check_config(case, ctx):
 
     # 4. Mahalanobis distances
     m = qs.shape[0]
+    qform = case.get("qform", "array") if case["model"] == "vector" else "pointclouds"
     ctx.event("batch=%d" % m)
+    ctx.event("query form=%s" % qform)
     dev = qs - mu
     want_c = np.array([dev[i].dot(ref).dot(dev[i]) for i in range(m)])
     want_u = np.array([qs[i].dot(ref).dot(qs[i]) for i in range(m)])
@@ -353,7 +534,11 @@ def check_config(case, ctx):
     got = {}
     for s, mdl in models.items():
         tag = "sparse" if s else "dense"
-        b = np.atleast_1d(np.asarray(mdl.mahalanobis_distance(_query(case, qs)), dtype=float))
+        qobj = _query(case, qs, qform)
+        dig_q = digest(qobj)
+        b = np.atleast_1d(np.asarray(mdl.mahalanobis_distance(qobj), dtype=float))
+        dq = parameter_mutation(dig_q, digest(qobj))
+        ctx.expect(dq is None, "inputs.query_changed", lambda: "form=%s %r" % (qform, dq))
         if not ctx.expect(b.shape == (m,), "mahalanobis.batch_shape." + tag, lambda: "%r for %d queries" % (b.shape, m)):
             continue
         got[s] = b
@@ -363,9 +548,17 @@ def check_config(case, ctx):
             lambda: "got %r want %r (atol %r)" % (b, want_c, atol_c),
         )
         ctx.expect(bool(np.all(b >= -atol_c)), "mahalanobis.negative." + tag, lambda: repr(b))
+        if qform not in ("array", "pointclouds"):
+            # the same batch as a plain C-ordered array
+            plain = np.atleast_1d(np.asarray(mdl.mahalanobis_distance(_query(case, qs)), dtype=float))
+            ctx.expect(
+                plain.shape == (m,) and bool(np.all(np.abs(plain - b) <= 1e-10 * scale_c)),
+                "mahalanobis.query_form." + tag,
+                lambda: "form=%s: %r, as an array: %r" % (qform, b, plain),
+            )
         # single == batch[i]
         singles = np.array(
-            [float(np.asarray(mdl.mahalanobis_distance(_query(case, qs[i])))) for i in range(m)]
+            [float(np.asarray(mdl.mahalanobis_distance(_query(case, qs[i], qform)))) for i in range(m)]
         )
         ctx.expect(
             bool(np.all(np.abs(singles - b) <= 1e-10 * scale_c)),
@@ -373,9 +566,13 @@ def check_config(case, ctx):
             lambda: "batch %r singles %r" % (b, singles),
         )
         # zero at the mean
-        at_mu = float(np.asarray(mdl.mahalanobis_distance(_query(case, mu))))
+        q1 = _query(case, mu)
+        dig_q1 = digest(q1)
+        at_mu = float(np.asarray(mdl.mahalanobis_distance(q1)))
+        dq1 = parameter_mutation(dig_q1, digest(q1))
+        ctx.expect(dq1 is None, "inputs.query_changed", lambda: "single query %r" % (dq1,))
         ctx.expect(
-            abs(at_mu) <= 1e-12 * d * rmax * (1.0 + mu.dot(mu)),
+            abs(at_mu) <= at_mean_rtol * d * rmax * (1.0 + mu.dot(mu)),
             "mahalanobis.at_mean." + tag,
             lambda: "distance at the sample mean = %r" % at_mu,
         )
@@ -401,7 +598,7 @@ def check_config(case, ctx):
         # 5. the model mean is the sample mean
         for nm, val in (("mean()", _as_vec(mdl.mean())), ("mean_vector", _as_vec(mdl.mean_vector))):
             ctx.expect(
-                close(val, mu, rtol=1e-12, atol=1e-13),
+                close(val, mu, rtol=mean_rtol, atol=mean_atol),
                 "mean.sample_mean." + nm,
                 lambda: describe(val, mu),
             )
@@ -415,6 +612,114 @@ def check_config(case, ctx):
     # inputs unchanged
     dd = parameter_mutation(dig_samples, digest(samples))
     ctx.expect(dd is None, "inputs.data_changed", lambda: repr(dd))
+    dg = parameter_mutation(dig_graph, digest(graph))
+    ctx.expect(dg is None, "inputs.graph_changed", lambda: repr(dg))
+
+
+# ================================================================================================
+# clause 3: incremental=True + increment() == the model of all samples
+
+
+def _increment_args(case, rows, form):
+    """One batch for increment(): 'matrix' / 'list' (n_samples left out), 'counted' (n_samples given, two surplus
+    items behind it: a longer list for the vector model, a longer iterator for the PointCloud one)."""
+    if form == "counted":
+        junk = 50.0 + 7.0 * np.arange(2 * rows.shape[1], dtype=float).reshape(2, -1)
+        return prepare_samples(dict(case, as_list=True), rows, junk, rows.shape[0])
+    if case["model"] == "pointcloud" or form == "list":
+        return prepare_samples(dict(case, as_list=True), rows)
+    return prepare_samples(dict(case, as_list=False, layout="C"), rows.copy())
+
+
+def check_incremental(case, ctx):
+    v, k, mode, bias = case["V"], case["k"], case["mode"], case["bias"]
+    d = v * k
+    edges, edgeless = classify(case, ctx)
+    primary_sparse = bool(case["sparse"])
+    where = "edgeless" if edgeless else mode
+    batches = [int(b) for b in case["inc"]]
+    inc_form = case["inc_form"]
+    inc_verbose = bool(case["inc_verbose"])
+    ctx.event("increments=%d" % len(batches))
+    ctx.event("increment form=%s verbose=%s" % (inc_form, inc_verbose))
+
+    x, qs = build_data(case)
+    more = build_more(case, x, sum(batches), foreign=False)
+    x_all = np.vstack([x, more])
+    ref0, cond0, gap0 = ref_precision(x, v, k, edges, mode, bias, case["ncomp"])
+    ref1, cond1, gap1 = ref_precision(x_all, v, k, edges, mode, bias, case["ncomp"])
+    if max(cond0, cond1) > 1e6:
+        ctx.event("skipped:block_condition>1e6")
+        return
+    if min(gap0, gap1) < 1e-6:
+        ctx.event("skipped:truncation_on_eigenvalue_tie")
+        return
+    tol0 = 2e-3 if case["dtype"] == "float32" else 1e-7
+    # the stored per-edge covariances are rounded to the storage dtype before they are updated and inverted
+    tol1 = 2e-3 * max(1.0, cond1 / 100.0) if case["dtype"] == "float32" else 1e-7
+    mu1 = x_all.sum(axis=0) / float(x_all.shape[0])
+    rmax0 = float(np.abs(ref0).max())
+    rmax1 = float(np.abs(ref1).max())
+
+    graph = build_graph(case)
+    dig_graph = digest(graph)
+    first = dict(case, layout="C" if case["layout"] == "f32" else case["layout"])
+    samples, make = prepare_samples(first, x)
+
+    # increment() of a model built without incremental=True is refused
+    plain = _make_model(first, make, graph, primary_sparse)
+    try:
+        _, mk0 = _increment_args(case, more[: batches[0]], inc_form)
+        arg0, kw0 = mk0()
+        plain.increment(arg0, **kw0)
+        ctx.fail("increment.non_incremental_accepted", "increment() on a model built with incremental=False returned")
+    except ValueError as e:
+        if "incrementally" not in str(e):
+            raise
+
+    mats = {}
+    held = []
+    for s in (primary_sparse, not primary_sparse):
+        tag = "sparse" if s else "dense"
+        mdl = _make_model(first, make, graph, s, incremental=True)
+        check_precision_matrix(ctx, case, mdl.precision, s, ref0, tol0, rmax0, "incremental_create")
+        lo = 0
+        for b in batches:
+            holder, mk = _increment_args(case, more[lo : lo + b], inc_form)
+            lo += b
+            held.append((holder, digest(holder)))
+            arg, kw = mk()
+            if inc_verbose:
+                kw["verbose"] = True
+            with _maybe_quiet(inc_verbose):
+                mdl.increment(arg, **kw)
+        mats[s] = check_precision_matrix(ctx, case, mdl.precision, s, ref1, tol1, rmax1, "increment")
+        for nm, val in (("mean()", _as_vec(mdl.mean())), ("mean_vector", _as_vec(mdl.mean_vector))):
+            ctx.expect(
+                close(val, mu1, rtol=1e-11, atol=1e-12),
+                "increment.mean_of_all_samples." + nm,
+                lambda: describe(val, mu1),
+            )
+        m = qs.shape[0]
+        dev = qs - mu1
+        want = np.array([dev[i].dot(ref1).dot(dev[i]) for i in range(m)])
+        scale = d * rmax1 * np.array([dev[i].dot(dev[i]) for i in range(m)]) + 1e-300
+        got = np.atleast_1d(np.asarray(mdl.mahalanobis_distance(_query(case, qs)), dtype=float))
+        if ctx.expect(got.shape == (m,), "increment.mahalanobis_shape." + tag, lambda: repr(got.shape)):
+            ctx.expect(
+                bool(np.all(np.abs(got - want) <= tol1 * scale)),
+                "increment.mahalanobis_vs_reference." + tag,
+                lambda: "got %r want %r" % (got, want),
+            )
+    if mats[True].shape == mats[False].shape == (d, d):
+        ctx.expect(
+            close(mats[True].astype(float), mats[False].astype(float), rtol=tol1, scale=rmax1),
+            "increment.sparse_vs_dense." + where,
+            lambda: "edges=%r\n%s" % (edges, describe(mats[True], mats[False])),
+        )
+    for holder, before in held:
+        dd = parameter_mutation(before, digest(holder))
+        ctx.expect(dd is None, "inputs.increment_data_changed", lambda: repr(dd))
     dg = parameter_mutation(dig_graph, digest(graph))
     ctx.expect(dg is None, "inputs.graph_changed", lambda: repr(dg))
 
@@ -486,7 +791,7 @@ def s_random(draw):
         perm = draw(st.permutations(list(range(v))))
         edges = [[perm[draw(st.integers(0, i - 1))], perm[i]] for i in range(1, v)]
         case["root"] = perm[0]
-        case["ctor"] = draw(st.sampled_from(["edges", "adjacency"]))
+        case["ctor"] = draw(st.sampled_from(["edges", "adjacency", "adjacency_csr"]))
     else:
         pairs = [[i, j] for i in range(v) for j in range(i + 1, v)]
         shape = draw(st.sampled_from(["edgeless", "any", "any", "any", "dense"]))
@@ -499,19 +804,25 @@ def s_random(draw):
         if gkind == "directed":
             flips = draw(st.lists(st.booleans(), min_size=len(edges), max_size=len(edges)))
             edges = [[b, a] if f else [a, b] for (a, b), f in zip(edges, flips)]
-            case["ctor"] = draw(st.sampled_from(["edges", "adjacency"]))
+            case["ctor"] = draw(st.sampled_from(["edges", "adjacency", "adjacency_csr"]))
         else:
-            case["ctor"] = draw(st.sampled_from(["edges", "edges_both", "adjacency"]))
+            case["ctor"] = draw(st.sampled_from(["edges", "edges_both", "adjacency", "adjacency_csr"]))
     if len(edges) > 1:
         edges = list(draw(st.permutations(edges)))
     case["edges"] = edges
+    # adjacency weights other than 1 (they only mark the edge) and graphs that also carry geometry
+    case["weighted"] = case["ctor"].startswith("adjacency") and draw(st.booleans())
+    case["pointgraph"] = draw(st.sampled_from([False, False, False, True]))
     case["mode"] = draw(st.sampled_from(MODES))
     case["bias"] = draw(st.sampled_from([0, 1]))
     case["sparse"] = draw(st.booleans())
     case["dtype"] = draw(st.sampled_from(["float64", "float32"]))
     block = k if (not edges or case["mode"] == "subtraction") else 2 * k
-    if block >= 2 and draw(st.booleans()):
+    rank = draw(st.sampled_from(["none", "none", "none", "below", "below", "below", "at_or_above"]))
+    if rank == "below" and block >= 2:
         case["ncomp"] = draw(st.integers(1, block - 1))
+    elif rank == "at_or_above":
+        case["ncomp"] = draw(st.sampled_from([block, block + 1, 100]))
     else:
         case["ncomp"] = None
     case["extra"] = draw(st.integers(0, 12))
@@ -525,6 +836,23 @@ def s_random(draw):
     case["m"] = draw(st.integers(1, 4))
     case["model"] = draw(st.sampled_from(["vector", "vector", "pointcloud"]))
     case["as_list"] = draw(st.booleans())
+    # how the samples / queries are handed over (each applies to the forms that have it, see prepare_samples)
+    case["layout"] = draw(st.sampled_from(["C", "C", "C", "F", "strided", "f32"]))
+    case["nsamp"] = draw(st.sampled_from([False, False, True]))
+    case["surplus"] = draw(st.sampled_from([0, 1, 3])) if case["nsamp"] else 0
+    case["verbose"] = draw(st.sampled_from([False, False, False, True]))
+    case["qform"] = draw(st.sampled_from(["array", "array", "array_F", "lists", "list_of_arrays"]))
+    return case
+
+
+@st.composite
+def s_incremental(draw):
+    case = draw(s_random())
+    case["nsamp"] = False
+    case["surplus"] = 0
+    case["inc"] = draw(st.sampled_from([[1], [2], [5], [9], [1, 1], [3, 4], [6, 1]]))
+    case["inc_form"] = draw(st.sampled_from(["matrix", "list", "counted"]))
+    case["inc_verbose"] = draw(st.sampled_from([False, False, True]))
     return case
 
 
@@ -544,7 +872,23 @@ CLAUSES = [
         thorough=40000,
         nt_floor=0.5,
         rule="undirected / directed without antiparallel pairs / tree graphs on 2..8 vertices incl. edgeless and isolated "
-        "vertices, 1..3 features per vertex, both modes, biases, storages, dtypes, optional truncation rank, vector and "
-        "PointCloud-backed model, 1..4 queries; non-trivial: edgeless, or some vertex of degree >= 2",
+        "vertices (edge list, dense / csr adjacency with or without weights, with or without geometry), 1..3 features per "
+        "vertex, both modes, biases, storages, dtypes, rank None / below / at or above the block size, vector and "
+        "PointCloud-backed model, samples as C / Fortran / strided / float32 matrix, list, or list / iterator with "
+        "n_samples and surplus items, verbose on/off, 1..4 queries as array / Fortran array / list of lists / list of "
+        "arrays; non-trivial: edgeless, or some vertex of degree >= 2",
+    ),
+    Clause(
+        "incremental",
+        check_incremental,
+        s_incremental,
+        quick=700,
+        thorough=12000,
+        nt_floor=0.5,
+        rule="the random_graphs case built with incremental=True on its n samples (precision == reference of those), then "
+        "1..2 further batches of 1..9 samples through increment() (matrix / list / n_samples with surplus items, verbose "
+        "on/off): precision == reference of all samples with the same structure clauses, mean == mean of all samples, "
+        "distances == reference, sparse == dense, batches and graph unchanged; increment() without incremental=True "
+        "raises the documented ValueError",
     ),
 ]
